@@ -21,7 +21,8 @@
 (*           injected fault)                                               *)
 (*   cut     the client hit the end of a truncated body (id, h, t)         *)
 (*   ret     an API call returned (id, call, ok, eq)                       *)
-(*   op      layer 2: an operation of scheme/reg starts (tc)               *)
+(*   op      layer 2: an operation of scheme/reg starts (tc; optional up,  *)
+(*           set: the registry it names and the hosts its reads may go to) *)
 (*   lseek   layer 2: the operation seeks on its open response (tc)        *)
 (*   result  layer 2: the operation returned (eqret, eqstate: equal to     *)
 (*           the fault-free run)                                           *)
@@ -66,8 +67,12 @@
 (*    is `base`: a time that is provably not later than any instant from   *)
 (*    which a client may count its delay (first failed reply of the host,  *)
 (*    of any kind, advanced by D / Retry-After each time a demand was      *)
-(*    applied and met), so scheduling noise - including a late wake-up     *)
-(*    from an earlier back-off sleep - can only enlarge the measured gap.  *)
+(*    applied and met, and never earlier than the last observation made    *)
+(*    before the failed request itself arrived: a client releases a        *)
+(*    request after everything that precedes it, so history left by an     *)
+(*    earlier operation cannot excuse a retry), so scheduling noise -      *)
+(*    including a late wake-up from an earlier back-off sleep - can only   *)
+(*    enlarge the measured gap.                                            *)
 (*  - The back-off demand applies to a request when the failed logical     *)
 (*    request is known not to have opted out of back-off (layer 1: the ie  *)
 (*    flag of the Req), or, when that is unknown (layer 2), when the       *)
@@ -101,7 +106,7 @@ Success   == {"ok", "trunc"}
 HostZero == [base |-> 0, due |-> 0, armed |-> 0, fsig |-> "", fie |-> 0, clean |-> TRUE, untilra |-> 0]
 NewRound(t, sig) == [t0 |-> t, tried |-> {}, dropped |-> {}, failed |-> {}, sig |-> sig]
 
-MZero == [R |-> 0, D |-> 0, up |-> "", hosts |-> {}, prio |-> <<>>, slack |-> 0, waive |-> {},
+MZero == [R |-> 0, D |-> 0, up |-> "", hosts |-> {}, cand |-> {}, prio |-> <<>>, slack |-> 0, waive |-> {},
           layer |-> 0, lq |-> <<>>, rd |-> NewRound(0, ""), hs |-> <<>>,
           lastk |-> "", lasttr |-> 0, lastsig |-> "", lasth |-> "",
           runn |-> 0, runfail |-> 0, maxrunfail |-> 0, rundrop |-> {},
@@ -113,7 +118,7 @@ PHeader(e) ==
   [MZero EXCEPT !.R = e.R, !.D = e.D, !.up = e.up, !.hosts = hset,
                 !.prio = [h \in hset |-> e.prio[CHOOSE i \in 1..Len(e.hosts) : e.hosts[i] = h]],
                 !.slack = e.slack, !.waive = SeqToSet(e.waive), !.layer = e.layer,
-                !.hs = [h \in hset |-> HostZero]]
+                !.hs = [h \in hset |-> HostZero], !.cand = hset]
 
 Fail(m, name) == IF m.bad # "" THEN m ELSE [m EXCEPT !.bad = name]
 \* first failing check of a sequence of <<condition-that-is-bad, name>>
@@ -143,8 +148,12 @@ PSeek(m, e) ==
 
 PRead(m, e) == [m EXCEPT !.rd = NewRound(e.tc, ""), !.lastk = "", !.lasttr = e.tc]
 
-POp(m, e) == [m EXCEPT !.rd = NewRound(e.tc, ""), !.lastk = "", !.lasttr = e.tc, !.lastsig = "",
-                       !.runn = 0, !.runfail = 0, !.rundrop = {}]
+\* (one client may use several registries one after the other: `up` names the registry of the reference of the
+\* operation that starts, `set` the hosts its reads may be offered to = that registry and its configured mirrors)
+POp(m, e) == [m EXCEPT !.rd = NewRound(e.tc, ""), !.lastk = "", !.lasttr = e.tc, !.lastsig = "", !.lasth = "",
+                       !.runn = 0, !.runfail = 0, !.rundrop = {},
+                       !.up = IF "up" \in DOMAIN e THEN e.up ELSE @,
+                       !.cand = IF "set" \in DOMAIN e THEN SeqToSet(e.set) \cap m.hosts ELSE @]
 
 \* layer 2: the operation announces a Seek of its own on the open response (not visible at the hosts): the
 \* same logical request goes on with a fresh round of offers and one attempt credited
@@ -179,7 +188,7 @@ PAtt2(m, e) ==
       hs    == m.hs[h]
       \* back-off demand: does it apply to this request?
       applies == hs.armed > 0 /\ (hs.fie = 0 \/ (hs.fie = 2 /\ hs.fsig = e.sig /\ m.lastsig = e.sig /\ m.lasth = h))
-      others == (m.hosts \ rd.tried) \ {h}
+      others == (m.cand \ rd.tried) \ {h}
       idle(g) == m.hs[g].clean                   \* g gives the client no reason to back off from it
       \* is this offer exactly what sorting the priorities the wrong way round would produce?
       asc   == /\ \A g \in rd.tried : KeyLe(m, g, h)
@@ -198,7 +207,10 @@ PAtt2(m, e) ==
               <<e.mir = 1 /\ \E g \in others : idle(g) /\ ShouldUp(m, g, h), "mirror-order:upstream-not-last">>
             >>)
       \* the demand was applied and met: the client's own reference is now at least `due`
-      base1 == IF applies THEN Max2(hs.base, hs.due) ELSE hs.base
+      \* ... and whatever a client counts from, it is not earlier than the release of this very request, which
+      \* comes after everything observed before it (m.lasttr: previous reply, start of the call, early end)
+      base0 == IF applies THEN Max2(hs.base, hs.due) ELSE hs.base
+      base1 == IF base0 # 0 THEN Max2(base0, m.lasttr) ELSE 0
       \* layer 2: a truncated body arms too (the hook `cut` does not exist there); the demand then
       \* only applies to the resuming request, which proves that the client met the early end
       arms  == (e.k \in Transient \/ (~l1 /\ e.k = "trunc")) /\ ie # 1
@@ -244,7 +256,7 @@ PCut(m, e) ==
       base == IF hs.base = 0 THEN e.t ELSE hs.base
   IN [m EXCEPT !.hs[e.h] = [hs EXCEPT !.base = base, !.armed = 1, !.due = base + m.D,
                                       !.fsig = m.lastsig, !.fie = ie, !.clean = FALSE],
-               !.nfail = @ + 1]
+               !.nfail = @ + 1, !.lasttr = Max2(m.lasttr, e.t)]
 
 \* ------------------------------------------------------------ API results
 PRet(m, e) ==
